@@ -104,7 +104,7 @@ CLAIMED.update({'C03': ("Bounded symbolic check of manifest-derived lifetimes: m
          'the listed (t, n); combine equals Lagrange interpolation at 0 for enumerated index tuples; refusals (too few shares, repeated / zero indices); termination for n = 255; secrecy as a '
          'necessary condition: for threshold 2 and 6 (thorough also 3, 4, 8) some value of the randomness makes t-1 shares interpolate to something other than the secret (an existential clause '
          'decided by complete exploration, confirmed by native sampling).',
-         'random_device stubbed; one secret byte position symbolic at a time; (t,n) bounded (t<=2 quick, t<=3 thorough for the round trip, n=255 with t=1); the full information-theoretic secrecy '
+         'random_device stubbed; one secret byte position symbolic at a time; (t,n) bounded (t<=2 for the split/combine round trip, t=3 for interpolation against the reference, n=255 with t=1); the full information-theoretic secrecy '
          'statement (a forall-exists query per share set) is outside the bounds'),
  'C11': ('Bounded symbolic check of the replica import Node::receive_chunk (lifted onto a partial Node with the real ChunkStore, KademliaTable, Shamir, CryptoManager, ChaCha20): a replica is stored, '
          'announced, cached or returned only if its decryption hashes to the manifest content hash (the optional attestation digest is symbolic too), the stored bytes are the imported ciphertext and '
